@@ -58,7 +58,7 @@ theorem mem_refKeys_of_once (B : Builder β) (b : β) (h : B.refCount b = 1) : b
 
 theorem mu_le (B : Builder β) (V : List β) : mu B V ≤ B.refs.length := by
   unfold mu refKeys
-  exact (List.length_filter_le _ _).trans (by simp)
+  exact Nat.le_trans (List.length_filter_le _ _) (by simp)
 
 theorem mu_mono (B : Builder β) (V V' : List β) (h : ∀ b ∈ V, b ∈ V') : mu B V' ≤ mu B V := by
   unfold mu
@@ -108,7 +108,7 @@ theorem exportV_isSome_aux (B : Builder β) (opts : Opts) :
           obtain ⟨Wb, alb, nmb, gb⟩ := localV B opts k po.2 V0 lb V1 hrec
           have hsub : ∀ c ∈ V0, c ∈ V1 := by
             intro c hc; rw [gb.marks, hms]; simp [hc]
-          have := ihl V1 ((mu_mono B V0 V1 hsub).trans h0)
+          have := ihl V1 (Nat.le_trans (mu_mono B V0 V1 hsub) h0)
           obtain ⟨⟨l', V2⟩, hf⟩ := Option.isSome_iff_exists.1 this
           simp [hf]
         · have hin' : B.isInlV opts V0 po.2 = false := by simpa using hin
@@ -194,8 +194,12 @@ theorem count_bobjs (T : List (Triple β)) (b : β) : (bobjs T).count b = refs T
     cases ho : t.o with
     | bnode c =>
       simp only [List.filterMap_cons, bn?, List.count_cons, ih, Term.bnode.injEq, beq_iff_eq, decide_eq_true_eq]
-    | iri v => simp [List.filterMap_cons, bn?, ih]
-    | lit l d g => simp [List.filterMap_cons, bn?, ih]
+    | iri v =>
+      simp only [List.filterMap_cons, bn?, ih]
+      simp
+    | lit l d g =>
+      simp only [List.filterMap_cons, bn?, ih]
+      simp
 
 omit [DecidableEq β] in
 theorem bobjs_perm {W T : List (Triple β)} (h : W.Perm T) : (bobjs W).Perm (bobjs T) :=
@@ -351,7 +355,7 @@ theorem graph_strongV (T : List (Triple β)) (opts : Opts) (ord1 ord2 : List (Te
     have : ((al1 ++ al2).map Term.bnode).Nodup := by
       rw [List.nodup_iff_count]
       intro x
-      exact (hal_count x).trans (List.nodup_iff_count.1 hA_nodup x)
+      exact Nat.le_trans (hal_count x) (List.nodup_iff_count.1 hA_nodup x)
     exact nodup_of_map _ _ this
   · intro b hb
     unfold anonymizedIn
